@@ -446,19 +446,18 @@ class JSONGrammar(BaseGrammar):
         names_to_types = {}
 
         for property_name, property_description in properties.items():
-            property_json_type = property_description["type"]
+            property_json_type = property_description.get("type")
 
             self.__warn_for_array(
                 property_name, property_json_type, property_description
             )
             self.__warn_for_items(property_name, property_description)
 
-            if property_json_type not in self.__JSON_TO_PYTHON_TYPES:
-                property_type = None
+            if isinstance(property_json_type, str):
+                property_type = self.__JSON_TO_PYTHON_TYPES.get(property_json_type)
             else:
-                property_type = self.__JSON_TO_PYTHON_TYPES[
-                    property_description["type"]
-                ]
+                # No type or several types (merged element): any type is valid.
+                property_type = None
 
             names_to_types[property_name] = property_type
 
